@@ -25,3 +25,27 @@ func TestKnownREMBMantissaZero(t *testing.T) {
 		fmt.Println("DEFECT-PRESENT REMB mantissa 0 decoded to", p.Bitrate)
 	}
 }
+
+func TestKnownCCFBNumReports(t *testing.T) {
+	b := CCFeedbackReportBlock{MediaSSRC: 1, BeginSequence: 7, MetricBlocks: []CCFeedbackMetricBlock{{Received: true}}}
+	buf, err := b.marshal()
+	if err == nil && len(buf) >= 8 && (uint16(buf[6])<<8|uint16(buf[7])) != 1 {
+		fmt.Println("DEFECT-PRESENT one metric block marshalled with num_reports", uint16(buf[6])<<8|uint16(buf[7]))
+	}
+}
+
+func TestKnownCCFBNumReportsDecode(t *testing.T) {
+	var b CCFeedbackReportBlock
+	err := b.unmarshal([]byte{0, 0, 0, 1, 0, 7, 0, 1, 0x80, 0, 0x80, 0})
+	if err == nil && len(b.MetricBlocks) != 1 {
+		fmt.Println("DEFECT-PRESENT num_reports 1 decoded to", len(b.MetricBlocks), "metric blocks")
+	}
+}
+
+func TestKnownCCFBIgnoresFMT(t *testing.T) {
+	var p CCFeedbackReport
+	err := p.Unmarshal([]byte{0x80, 0xcd, 0x00, 0x02, 0, 0, 0, 1, 0, 0, 0, 2})
+	if err == nil {
+		fmt.Println("DEFECT-PRESENT CCFeedbackReport.Unmarshal accepted FMT 0")
+	}
+}
